@@ -73,6 +73,27 @@ Stage2(e) ==
        Fail(e.small /\ e.exact /\ e.alpha \in {<<1, 1>>, <<2, 1>>, <<1, 2>>, <<3, 2>>} /\ AllWeightsDefined(e.x, Fp(e), e.alpha) /\ \E k \in 1..nw : ~ProfileOK(e, k), "C03.profile") \cup
        Fail(e.small /\ ~e.exact /\ \E k \in 1..nw : ~ProfileOrderOK(e, k), "C03.profile_order")
 
+(* ---- beyond the listed properties: the private kernels called directly, with their argument defaults ---------------
+   event: [fn |-> "stretch_private", kind ("window" | "interval"), xnone, x, dx, y, rule, alpha, target (window),
+           valsnone, values, fpinone, fpi (interval), outcome, out] *)
+PrivX(e) == IF e.xnone THEN [i \in 1..Len(e.y) |-> RMul(RInt(i - 1), e.dx)] ELSE e.x
+\* documented default of the window indices: evenly spaced, [0, len/n, 2 len/n, ...] up to len
+PrivFpi(e) == IF ~e.fpinone THEN e.fpi
+              ELSE LET st == Len(e.y) \div Len(e.values) IN [k \in 1..((Len(e.y) \div st) + 1) |-> (k - 1) * st]
+PrivVals(e) == IF ~e.valsnone THEN e.values ELSE [k \in 1..(Len(e.fpi) - 1) |-> Zero]
+RECURSIVE PrivLoop(_, _, _, _, _, _, _)
+PrivLoop(x, y, fpi, vals, rule, alpha, k) ==
+    IF k > Len(vals) \/ k > Len(fpi) - 1 THEN y
+    ELSE LET s == fpi[k] + 1
+             t == IF fpi[k + 1] + 1 > Len(y) THEN Len(y) ELSE fpi[k + 1] + 1          \* the slice is clipped at the end
+         IN PrivLoop(x, WindowStep(x, y, s, t, vals[k], rule, alpha), fpi, vals, rule, alpha, k + 1)
+V_stretch_private(e) ==
+    IF e.kind = "interval" /\ e.valsnone /\ e.fpinone THEN Fail(e.outcome # "ValueError", "impl.stretch_private.missing_arguments")
+    ELSE IF e.outcome # "ok" THEN {"impl.stretch_private.outcome"}
+    ELSE IF e.kind = "window"
+         THEN Fail(~SeqOK(e.out, Stretch(PrivX(e), e.y, e.target, e.rule, e.alpha), 20), "impl.stretch_private.window")
+         ELSE Fail(~SeqOK(e.out, PrivLoop(PrivX(e), e.y, PrivFpi(e), PrivVals(e), e.rule, e.alpha, 1), 20), "impl.stretch_private.interval")
+
 V_match(e) ==
     IF e.trule \notin Rules \/ e.rrule \notin Rules THEN Fail(e.outcome # "ValueError", "C20.integral_rule")
     ELSE IF Rejected(e) THEN Fail(e.outcome # "ValueError", "C20.fixed_points")
